@@ -46,6 +46,8 @@ def make_geo(name, sp):
     if name == "none":
         return None
     ext_xyz = [a.ext for a in reversed(sp)]
+    if name == "nurbs-small":
+        return geometry.quarter_annulus(L.SMALL * L.R1, L.SMALL * L.R2)
     if name == "nurbs":
         g = geometry.quarter_annulus(L.R1, L.R2)
         if d == 3:
@@ -71,6 +73,8 @@ def make_geo(name, sp):
 
 
 def geo_ok(name, sp):
+    if name == "nurbs-small":
+        return len(sp) == 2 and all(a.ext == (0.0, 1.0) for a in sp)
     if name == "nurbs":
         return len(sp) in (2, 3) and all(a.ext == (0.0, 1.0) for a in sp)
     if name == "quadratic":
